@@ -58,7 +58,7 @@ def parseBeh (w : String) : Option (Nat × Outcome) :=
 /-! ### composite level -/
 
 def strSem : Sem String :=
-  { F := fun c args => s!"f{c}({",".intercalate args})",
+  { F := fun c args => if c == 99 then args.headD "ND" else s!"f{c}({",".intercalate args})",  -- 99 = UserInput (identity)
     atom := fun v => if v == 0 then "d" else s!"a{v}",
     nd := "ND" }
 
@@ -188,6 +188,9 @@ def step' (s : DSt) (ws : List String) : DSt × List String :=
       | _ => (s, ["bad-op"])
     | _, _, _ => (s, ["bad-op"])
   | ["trun"] => treeRun s
+  -- the code missed for a reason outside the model (values last pushed through value links lag one run behind):
+  -- the model drops its entry too; a hit of the code (`trun`) is always decided by the model itself
+  | ["trun", "miss"] => treeRun { s with cur := { s.cur with cache := none }, prop := { s.prop with cache := none } }
   | _ => (s, ["bad-op"])
 
 def main : IO Unit := PwVerif.Proto.run DSt.init step'
